@@ -61,6 +61,9 @@ type funcInfo struct {
 	unknownVia map[int]map[string]bool // param -> descriptions of unclassifiable uses
 	retAlias   []rootSet               // per result index: pkgvars and own params that may flow into it
 	captures   map[int]rootSet         // dst param -> roots (pkgvars / own params)
+	captured   map[*types.Var]rootSet // roots stored INTO the object a local refers to (x.f = v)
+	idx        *funcIndex
+	inReach    int
 	callees    map[*funcInfo]bool
 	funcRefs   map[*funcInfo]bool // module functions used as values (not called) inside this function
 	isInit     bool
@@ -372,6 +375,9 @@ func (c *fctx) varRoots(v *types.Var) rootSet {
 	if a, ok := c.fi.alias[v]; ok {
 		out.addAll(a)
 	}
+	if a, ok := c.fi.captured[v]; ok {
+		out.addAll(a)
+	}
 	return out
 }
 
@@ -382,6 +388,14 @@ func (c *fctx) rootsOf(e ast.Expr) rootSet {
 		return rootSet{}
 	case *ast.Ident:
 		if v, ok := c.objOf(x).(*types.Var); ok {
+			if _, isPkg := c.an.pkgVars[v]; !isPkg {
+				if rs, ok := c.reachingDef(v, x); ok {
+					if _, isParam := c.fi.pidx[v]; isParam && false {
+						rs[v] = struct{}{}
+					}
+					return rs
+				}
+			}
 			return c.varRoots(v)
 		}
 		return rootSet{}
@@ -801,9 +815,17 @@ func firstField(steps []lstep) string {
 }
 
 // recordStoreThrough: a store into a cell of element type elem reached through a reference rooted at R
-func (c *fctx) recordStoreThrough(r *types.Var, elem string, kind, field string, pos token.Pos) {
+// direct: the cell is in the object the root's value points to itself (p.f = v, p[i] = v); otherwise it is
+// somewhere deeper in memory reachable from it.  The distinction is carried in the summaries ("d:"/"x:"
+// prefix of the element type) so that a store into a fresh object that merely CONTAINS a reference to a
+// root's memory is not taken for a store into that memory.
+func (c *fctx) recordStoreThrough(r *types.Var, elem string, kind, field string, pos token.Pos, direct bool) {
 	if !c.an.hits(r, elem) {
 		return
+	}
+	tag := "x:"
+	if direct {
+		tag = "d:"
 	}
 	if _, isPkg := c.an.pkgVars[r]; isPkg {
 		if c.an.final {
@@ -817,8 +839,8 @@ func (c *fctx) recordStoreThrough(r *types.Var, elem string, kind, field string,
 			m = map[string]bool{}
 			c.fi.storesThru[i] = m
 		}
-		if !m[elem] {
-			m[elem] = true
+		if !m[tag+elem] {
+			m[tag+elem] = true
 			c.an.changed = true
 		}
 		if c.an.final {
@@ -863,11 +885,11 @@ func (c *fctx) store(e ast.Expr, how string) {
 		// lvalue not rooted at an identifier, e.g. f().x = v : the prefix expression's roots decide
 		if se, isSel := e.(*ast.SelectorExpr); isSel {
 			for r := range c.rootsOf(se.X) {
-				c.recordStoreThrough(r, anyType, "alias-"+how+"-store", se.Sel.Name, e.Pos())
+				c.recordStoreThrough(r, anyType, "alias-"+how+"-store", se.Sel.Name, e.Pos(), false)
 			}
 		} else if ie, isIdx := e.(*ast.IndexExpr); isIdx {
 			for r := range c.rootsOf(ie.X) {
-				c.recordStoreThrough(r, anyType, "alias-"+how+"-store", "", e.Pos())
+				c.recordStoreThrough(r, anyType, "alias-"+how+"-store", "", e.Pos(), false)
 			}
 		}
 		return
@@ -895,7 +917,8 @@ func (c *fctx) store(e ast.Expr, how string) {
 		// the cell finally written is below this prefix; its type is the type of the full lvalue
 		// if later steps are plain field/array selections inside the element.
 		_ = i
-		for r := range c.rootsOf(s.expr) {
+		roots, direct := c.prefixRoots(s.expr)
+		for r := range roots {
 			field := ""
 			if r == bv {
 				field = firstField(steps)
@@ -904,9 +927,40 @@ func (c *fctx) store(e ast.Expr, how string) {
 			if r != bv {
 				k = "alias-" + kind
 			}
-			c.recordStoreThrough(r, elem, k, field, e.Pos())
+			c.recordStoreThrough(r, elem, k, field, e.Pos(), direct)
 		}
 	}
+}
+
+// prefixRoots: roots of a reference-typed lvalue prefix; for a bare identifier only what the variable itself
+// points to (not what the pointed-to object contains), and the store is then a direct one
+func (c *fctx) prefixRoots(e ast.Expr) (rootSet, bool) {
+	if id, ok := unparen(e).(*ast.Ident); ok {
+		if v, ok := c.objOf(id).(*types.Var); ok {
+			return c.directRoots(v, id), true
+		}
+	}
+	return c.rootsOf(e), false
+}
+
+func (c *fctx) directRoots(v *types.Var, id *ast.Ident) rootSet {
+	out := rootSet{}
+	if _, isPkg := c.an.pkgVars[v]; isPkg {
+		out[v] = struct{}{}
+		return out
+	}
+	if id != nil {
+		if rs, ok := c.reachingDefOpt(v, id, false); ok {
+			return rs
+		}
+	}
+	if _, ok := c.fi.pidx[v]; ok {
+		out[v] = struct{}{}
+	}
+	if a, ok := c.fi.alias[v]; ok {
+		out.addAll(a)
+	}
+	return out
 }
 
 // bind: value of rhs flows into lvalue lhs (aliasing)
@@ -925,8 +979,8 @@ func (c *fctx) bind(lhs ast.Expr, rs rootSet) {
 		c.addAlias(bv, rs)
 		return
 	}
-	// x.f = v / x[i] = v : object-level capture
-	c.addAlias(bv, rs)
+	// x.f = v / x[i] = v : the object x refers to now CONTAINS references to rs (object-level capture)
+	c.addCaptured(bv, rs)
 	for r := range c.varRoots(bv) {
 		if i, isParam := c.fi.pidx[r]; isParam {
 			cs := c.fi.captures[i]
@@ -1015,9 +1069,20 @@ func (c *fctx) handleCall(call *ast.CallExpr) {
 				if paramIndexForArg(callee, ai) != pi {
 					continue
 				}
-				for r := range c.valueRoots(a) {
-					for el := range elems {
-						c.recordStoreThrough(r, el, "call:"+callee.name, "", call.Pos())
+				for key := range elems {
+					el, direct := key[2:], key[0] == 'd'
+					roots := c.valueRoots(a)
+					if direct {
+						if id, ok := unparen(a).(*ast.Ident); ok {
+							if v, ok := c.objOf(id).(*types.Var); ok {
+								roots = c.directRoots(v, id)
+							}
+						} else {
+							direct = false
+						}
+					}
+					for r := range roots {
+						c.recordStoreThrough(r, el, "call:"+callee.name, "", call.Pos(), direct)
 					}
 				}
 			}
@@ -1083,7 +1148,7 @@ func (c *fctx) bindObject(a ast.Expr, rs rootSet) {
 	if _, isPkg := c.an.pkgVars[bv]; isPkg {
 		return
 	}
-	c.addAlias(bv, rs)
+	c.addCaptured(bv, rs)
 	for r := range c.varRoots(bv) {
 		if i, isParam := c.fi.pidx[r]; isParam {
 			cs := c.fi.captures[i]
@@ -1101,6 +1166,26 @@ func (c *fctx) bindObject(a ast.Expr, rs rootSet) {
 				c.an.changed = true
 			}
 		}
+	}
+}
+
+func (c *fctx) addCaptured(v *types.Var, rs rootSet) {
+	if c.fi.captured == nil {
+		c.fi.captured = map[*types.Var]rootSet{}
+	}
+	a := c.fi.captured[v]
+	if a == nil {
+		a = rootSet{}
+		c.fi.captured[v] = a
+	}
+	tmp := rootSet{}
+	for k := range rs {
+		if k != v {
+			tmp[k] = struct{}{}
+		}
+	}
+	if a.addAll(tmp) {
+		c.an.changed = true
 	}
 }
 
@@ -1122,7 +1207,8 @@ func (c *fctx) storeInto(e ast.Expr, how string, pos token.Pos) {
 		}
 	}
 	_, bv, steps, ok := c.decompose(stripSlice(e))
-	for r := range c.rootsOf(e) {
+	sroots, sdirect := c.prefixRoots(stripSlice(e))
+	for r := range sroots {
 		k := how
 		field := ""
 		if ok && bv == r {
@@ -1133,7 +1219,7 @@ func (c *fctx) storeInto(e ast.Expr, how string, pos token.Pos) {
 		} else {
 			k = "alias-" + how
 		}
-		c.recordStoreThrough(r, elem, k, field, pos)
+		c.recordStoreThrough(r, elem, k, field, pos, sdirect)
 	}
 }
 
